@@ -358,6 +358,7 @@ func (sdb *DbSqlite) initRoot(rootID string) (string, error) {
 		return "", fmt.Errorf("Error setting root node points: %v", err)
 	}
 
+	verifEvent("sqlite.initRoot.afterRootPoints")
 	err = sdb.edgePoints(rootNode.ID, "root", data.Points{
 		{Type: data.PointTypeTombstone, Value: 0},
 		{Type: data.PointTypeNodeType, Text: rootNode.Type},
@@ -377,11 +378,13 @@ func (sdb *DbSqlite) initRoot(rootID string) (string, error) {
 
 	points := admin.ToPoints()
 
+	verifEvent("sqlite.initRoot.afterRootEdge")
 	err = sdb.nodePoints(admin.ID, points)
 	if err != nil {
 		return "", fmt.Errorf("Error setting default user: %v", err)
 	}
 
+	verifEvent("sqlite.initRoot.afterAdminPoints")
 	err = sdb.edgePoints(admin.ID, rootNode.ID, data.Points{
 		{Type: data.PointTypeTombstone, Value: 0},
 		{Type: data.PointTypeNodeType, Text: data.NodeTypeUser},
@@ -391,6 +394,7 @@ func (sdb *DbSqlite) initRoot(rootID string) (string, error) {
 		return "", err
 	}
 
+	verifEvent("sqlite.initRoot.afterAdminEdge")
 	sdb.writeLock.Lock()
 	defer sdb.writeLock.Unlock()
 	_, err = sdb.db.Exec("UPDATE meta SET root_id = ?", rootNode.ID)
@@ -408,6 +412,7 @@ func (sdb *DbSqlite) initJwtKey() error {
 		return fmt.Errorf("Error reading making JWT key: %v", err)
 	}
 
+	verifEvent("sqlite.initJwtKey.beforeWrite")
 	sdb.writeLock.Lock()
 	defer sdb.writeLock.Unlock()
 	_, err = sdb.db.Exec("UPDATE meta SET jwt_key = ?", sdb.meta.JWTKey)
@@ -560,12 +565,14 @@ NextPin:
 
 	stmt.Close()
 
+	verifEvent("sqlite.nodePoints.beforeHash", id)
 	err = sdb.updateHash(tx, id, "", hashUpdate)
 	if err != nil {
 		rollback()
 		return fmt.Errorf("Error updating upstream hash: %v", err)
 	}
 
+	verifEvent("sqlite.nodePoints.beforeCommit", id)
 	err = tx.Commit()
 	if err != nil {
 		return err
@@ -833,6 +840,7 @@ NextPin:
 			}
 		}
 
+		verifEvent("sqlite.edgePoints.afterEdgeInsert", nodeID, parentID)
 		if parentID == "root" {
 			log.Println("inserting new root node, update root in meta")
 			_, err = tx.Exec("UPDATE meta SET root_id = ?", nodeID)
@@ -844,6 +852,7 @@ NextPin:
 		}
 	}
 
+	verifEvent("sqlite.edgePoints.beforeHash", nodeID, parentID)
 	// edge points are part of this edge only, not of the node's other parents
 	err = sdb.updateHash(tx, nodeID, parentID, hashUpdate)
 	if err != nil {
@@ -851,6 +860,7 @@ NextPin:
 		return fmt.Errorf("Error updating upstream hash: %v", err)
 	}
 
+	verifEvent("sqlite.edgePoints.beforeCommit", nodeID, parentID)
 	err = tx.Commit()
 	if err != nil {
 		return err
